@@ -3,20 +3,22 @@ From CM Require Import lib.Prelude model.Startbit gen.Gen_startbit.
 
 Definition is_true (o : option bool) : bool := match o with Some true => true | _ => false end.
 
+(* stated over the property's quantifier (widths 1..64, positions 0..511): what the functions do with other numbers is not
+   constrained by C08 and is no obligation of the tie *)
 Theorem tie_set_startbit :
-  forall le size cur sb bn sl,
+  forall le size cur sb bn sl, 1 <= size <= 64 -> 0 <= sb <= 511 ->
     gen_set_startbit le size cur sb bn sl = set_startbit le size sb bn (is_true sl).
 Proof.
-  intros. unfold gen_set_startbit, set_startbit, numbering_differs, flip, is_true.
+  intros le size cur sb bn sl Hsize Hsb. unfold gen_set_startbit, set_startbit, numbering_differs, flip, is_true.
   destruct bn as [n|]; destruct le; destruct sl as [[|]|]; cbn [negb andb orb];
     repeat (case_if; cbn [negb andb orb] in *); try reflexivity; try discriminate; try lia; try (f_equal; lia).
 Qed.
 
 Theorem tie_get_startbit :
-  forall le size i bn sl,
+  forall le size i bn sl, 1 <= size <= 64 -> 0 <= i ->
     gen_get_startbit le size i bn sl = Some (get_startbit le size i bn (is_true sl)).
 Proof.
-  intros. unfold gen_get_startbit, get_startbit, numbering_differs, flip, is_true.
+  intros le size i bn sl Hsize Hi. unfold gen_get_startbit, get_startbit, numbering_differs, flip, is_true.
   destruct bn as [n|]; destruct le; destruct sl as [[|]|]; cbn [negb andb orb];
     repeat (case_if; cbn [negb andb orb] in *); try reflexivity; try discriminate; try lia; try (f_equal; lia).
 Qed.
